@@ -143,7 +143,8 @@ parse_date(const char *s)
 static int
 parse_time(const char *s)
 {
-	int seconds, frames = 0;
+	unsigned long seconds;
+	int frames = 0;
 
 	seconds = strtoul(s, (char **) &s, 10);
 
@@ -152,7 +153,10 @@ parse_time(const char *s)
 		    || (frames = parse_dec(s + 1, 2)) < 0)
 			return -1;
 
-	return seconds * 25 + frames;
+	if (seconds > (INT_MAX - 99) / 25)
+		return -1;
+
+	return (int) seconds * 25 + frames;
 }
 
 static int
